@@ -326,3 +326,71 @@ Proof.
     + destruct o; [congruence|]. destruct set0; [congruence|]. destruct (Nat.eqb callno n); [|congruence]. eapply IH; eassumption.
     + destruct (o && Nat.eqb (S callno) n); [|congruence]. eapply IH; eassumption.
 Qed.
+
+(* ... and that FnEnd closes exactly the call that was open *)
+Lemma serial_open_closed m mid : forall c' set' t' rest,
+  serial true m (mid ++ FnStart c' set' t' :: rest) <> None ->
+  exists ok s2, In (FnEnd (m - 1) ok s2) mid.
+Proof.
+  induction mid as [|x r IH]; intros c' set' t' rest; cbn [serial app].
+  - congruence.
+  - destruct x; try (intros H; destruct (IH _ _ _ _ H) as (ok & s2 & Hin); exists ok, s2; right; exact Hin).
+    + congruence.
+    + cbn [andb]. destruct (Nat.eqb (S callno) m) eqn:E; [|congruence].
+      apply Nat.eqb_eq in E. intros _. exists ok, set. left. f_equal. lia.
+Qed.
+
+Lemma serial_between o n pre : forall c set t mid c' set' t' rest,
+  serial o n (pre ++ FnStart c set t :: mid ++ FnStart c' set' t' :: rest) <> None ->
+  exists ok s2, In (FnEnd c ok s2) mid.
+Proof.
+  intros c set t mid c' set' t' rest H.
+  destruct (serial_some_suffix pre o n _ H) as (o1 & n1 & _ & H1).
+  cbn [serial] in H1. destruct o1; [congruence|]. destruct set; [congruence|].
+  destruct (Nat.eqb c n1) eqn:E; [|congruence]. apply Nat.eqb_eq in E. subst n1.
+  destruct (serial_open_closed _ _ _ _ _ _ H1) as (ok & s2 & Hin). exists ok, s2.
+  replace (S c - 1) with c in Hin by lia. exact Hin.
+Qed.
+
+Lemma serial_nonempty_in o n pre : forall c set t rest,
+  serial o n (pre ++ FnStart c set t :: rest) <> None -> set <> [].
+Proof.
+  intros c set t rest H. eapply serial_nonempty_sets; [exact H|]. apply in_or_app. right. left. reflexivity.
+Qed.
+
+(* call numbers are consecutive: the k-th FnStart of a trace carries number k *)
+Definition n_starts (tr : list obs) : nat :=
+  length (filter (fun o => match o with FnStart _ _ _ => true | _ => false end) tr).
+
+Lemma serial_counts tr : forall o n o' n', serial o n tr = Some (o', n') -> n' = n + n_starts tr.
+Proof.
+  induction tr as [|x r IH]; intros o n o' n'; cbn [serial].
+  - intros H; inversion H; subst. unfold n_starts; cbn. lia.
+  - destruct x; try (intros H; apply IH in H; unfold n_starts in *; cbn; exact H).
+    + destruct o; [discriminate|]. destruct set; [discriminate|]. destruct (Nat.eqb callno n); [|discriminate].
+      intros H. apply IH in H. unfold n_starts in *. cbn. lia.
+    + destruct (o && Nat.eqb (S callno) n); [|discriminate]. intros H; apply IH in H; unfold n_starts in *; cbn; exact H.
+Qed.
+
+Lemma serial_callno pre : forall c set t rest,
+  serial false 0 (pre ++ FnStart c set t :: rest) <> None -> c = n_starts pre.
+Proof.
+  intros c set t rest H. destruct (serial_some_suffix pre false 0 _ H) as (o1 & n1 & H0 & H1).
+  apply serial_counts in H0. cbn [serial] in H1. destruct o1; [congruence|]. destruct set; [congruence|].
+  destruct (Nat.eqb c n1) eqn:E; [|congruence]. apply Nat.eqb_eq in E. lia.
+Qed.
+
+Lemma serial_nonempty_readable (T : N) (evs : list event) :
+    let tr := concat (trace T evs) in
+    (forall pre c set t rest, tr = pre ++ FnStart c set t :: rest -> set <> []) /\
+    (forall pre c set t mid c' set' t' rest,
+        tr = pre ++ FnStart c set t :: mid ++ FnStart c' set' t' :: rest ->
+        exists ok set_end, In (FnEnd c ok set_end) mid) /\
+    (forall pre c set t rest, tr = pre ++ FnStart c set t :: rest -> c = n_starts pre).
+Proof.
+  intros tr. pose proof (serial_nonempty_lemma T evs) as H. fold tr in H.
+  repeat split.
+  - intros pre c set t rest E. rewrite E in H. exact (serial_nonempty_in _ _ _ _ _ _ _ H).
+  - intros pre c set t mid c' set' t' rest E. rewrite E in H. exact (serial_between _ _ _ _ _ _ _ _ _ _ _ H).
+  - intros pre c set t rest E. rewrite E in H. exact (serial_callno _ _ _ _ _ H).
+Qed.
